@@ -2,6 +2,9 @@ package ed
 
 import (
 	"fmt"
+	"net"
+	"net/http"
+	"net/http/httptest"
 	"strings"
 	"time"
 
@@ -20,6 +23,20 @@ type C05Cfg struct {
 	Stop    bool   `json:"stop"`    // a thread does what Controller.handleErrorNoLock+RemoveReplicaNoLock do: StopMonitoring(); Close()
 	IO      bool   `json:"io"`      // one concurrent WriteAt through Remote.IOs
 	LimitS  int    `json:"limit_s"` // virtual-time horizon in seconds (the ping ticker never stops)
+}
+
+// c05Transport answers the two REST calls of Factory.Create: the replica reports state closed, then accepts open.
+type c05Transport struct{}
+
+func (c05Transport) RoundTrip(req *http.Request) (*http.Response, error) {
+	rec := httptest.NewRecorder()
+	rec.Header().Set("Content-Type", "application/json")
+	if req.Method == "GET" {
+		rec.WriteString(`{"id":"1","type":"replica","state":"closed"}`)
+	} else {
+		rec.WriteString(`{"id":"1","type":"replica","state":"open"}`)
+	}
+	return rec.Result(), nil
 }
 
 func (c C05Cfg) String() string {
@@ -53,8 +70,18 @@ func runC05(cfg *C05Cfg, ch vs.Chooser, trace bool) (*Outcome, *vs.Result) {
 	)
 	res := vs.Run(vs.Config{Chooser: ch, Horizon: 6000, Trace: trace, TimeLimit: time.Duration(cfg.LimitS) * time.Second}, func() {
 		a, b := NewVConnPair()
-		r, client = remote.VerifEdNew("replica-under-test", a)
-		remote.VerifEdStartMonitor(r, client)
+		// the REAL Factory.Create builds the backend (channel capacities, the rpc client sharing closeChan, the
+		// monitorPing goroutine): its two REST calls are answered by c05Transport, its net.Dial (rewritten to vs.Dial by
+		// the E-D profile) gets one end of the in-memory connection pair
+		vs.DialHook = func(network, addr string) (net.Conn, error) { return a, nil }
+		http.DefaultTransport = c05Transport{}
+		c18TransportSet = false
+		be, err := (&remote.Factory{}).Create("tcp://10.9.9.9:9502")
+		if err != nil {
+			panic("Factory.Create: " + err.Error())
+		}
+		r = be.(*remote.Remote)
+		client = remote.VerifEdClient(r)
 		// controller side: Controller.monitoring
 		vs.Go("monitoring", func() {
 			err := vs.Recv(r.GetMonitorChannel())
